@@ -11,6 +11,9 @@ RULE_ADDED = {
     "C07b": "C07-R6 (lane predicate guards)", "C08a": "C08-R4 (sentinel = searched bound)", "C09a": "C09-R5 (checked fee = charged fee)",
     "C09b": "C09-R4 (dispatching end-blockers before feemarket)", "C10a": "C10-R7 (= C15-R4)", "C13a": "C13-R3 (slot writer / cumulative reader shape)",
     "C14a": "C14-R5 (position pairing)", "C17a": "C17-R4 (whole-prefix enumeration)", "C18a": "C18-R2 (callbacks never stop)", "C20a": "C20-R7 (indexer accessors)",
+    "C11a": "C11-R5 (staking view provenance)",
+    "C11b": "C11-R3 (log amount = moved amount)", "C13b": "C13-R3 (every result stores the slots)", "C17b": "C17-R1 (membership is an equality with the authority)",
+    "C20b": "C20-R8 (uninstall at most once)",
 }
 
 
